@@ -639,6 +639,15 @@ BitPt(name, op) == Flat(Map(<< Zero, One, BInt(2), M1 >>, LAMBDA b :
 NumS(n) == ToString(n)
 
 ShapeW == IF Quick THEN <<0, 1, 2, 7, 8, 9, 63, 64, 254, 255, 256>> ELSE [i \in 1..257 |-> i - 1]
+\* quick tier: every width of the bit-level components once, with the two value vectors that
+\* set every bit of every slice (2^254 - 1) and only the top bit of the width (2^(w-1)): a
+\* width-specific slip in witness generation (word-sized fast paths, limb boundaries) needs
+\* exactly one width and a set top bit (seeded C07-3: width 65, bit 64)
+EveryW(name, op, w) == << Sh(name, P1(BSub(P2(254), One), op)), Sh(name, P1(P2(IF w = 0 THEN 0 ELSE w - 1), op)) >>
+ShapeEveryWidth ==
+     Flat([i \in 1..255 |-> EveryW("truncate/" \o NumS(i - 1), [op |-> "truncate", w |-> "x", n |-> i - 1, out |-> "t"], i - 1)])
+  \o Flat([i \in 1..256 |-> EveryW("decomposition/" \o NumS(i), [op |-> "decomposition", w |-> "x", n |-> i, out |-> "b"], i)])
+  \o Flat([i \in 1..257 |-> EveryW("range_bits/" \o NumS(i - 1), [op |-> "range_bits", w |-> "x", bits |-> i - 1], i - 1)])
 ShapeCases ==
      Flat(Map(ShapeW, LAMBDA w : OneW("range_bits/" \o NumS(w), [op |-> "range_bits", w |-> "x", bits |-> w])))
   \o Flat(Map(IF Quick THEN <<0, 1, 4, 128, 130>> ELSE [i \in 1..131 |-> i - 1],
@@ -647,6 +656,7 @@ ShapeCases ==
            LAMBDA w : OneW("truncate/" \o NumS(w), [op |-> "truncate", w |-> "x", n |-> w, out |-> "t"])))
   \o Flat(Map(IF Quick THEN <<1, 8, 252, 255, 256>> ELSE [i \in 1..256 |-> i],
            LAMBDA w : OneW("decomposition/" \o NumS(w), [op |-> "decomposition", w |-> "x", n |-> w, out |-> "b"])))
+  \o (IF Quick THEN ShapeEveryWidth ELSE << >>)
   \o Flat(Map(IF Quick THEN <<0, 1, 3, 64, 127>> ELSE [i \in 1..128 |-> i - 1], LAMBDA w :
            TwoW("logic-xor/" \o NumS(w), [op |-> "logic", a |-> "x", b |-> "y", pairs |-> w, xor |-> TRUE, out |-> "o"])
         \o TwoW("logic-and/" \o NumS(w), [op |-> "logic", a |-> "x", b |-> "y", pairs |-> w, xor |-> FALSE, out |-> "o"])))
